@@ -114,3 +114,53 @@ pub fn env_names() -> Vec<String> {
     }
     set.into_iter().collect()
 }
+
+/// Byte-array constants written as array-repeat expressions `[<byte literal>; <length>]` in the
+/// library sources (any length up to 4096), as (value, length) expanded to bytes; together with
+/// the string literals this covers the ways a sentinel byte string can be spelled in the code.
+pub fn array_repeat_constants(crates: &[&str]) -> Vec<Vec<u8>> {
+    let root = std::env::var("VERIF_REPO").unwrap_or_else(|_| "/repo".into());
+    let mut set = BTreeSet::new();
+    let num = |t: &str| -> Option<u64> {
+        let t = t.trim().trim_end_matches("u8").trim_end_matches("usize").trim_end_matches('_');
+        if let Some(h) = t.strip_prefix("0x") {
+            u64::from_str_radix(&h.replace('_', ""), 16).ok()
+        } else if let Some(b) = t.strip_prefix("0b") {
+            u64::from_str_radix(&b.replace('_', ""), 2).ok()
+        } else if let Some(c) = t.strip_prefix("b'").and_then(|x| x.strip_suffix('\'')) {
+            (c.len() == 1).then(|| u64::from(c.as_bytes()[0]))
+        } else {
+            t.replace('_', "").parse().ok()
+        }
+    };
+    for c in crates {
+        let mut files = vec![];
+        walk(&Path::new(&root).join(c).join("src"), &mut files);
+        for f in files {
+            if f.file_name().map(|n| n == "tld_list.rs").unwrap_or(false) {
+                continue;
+            }
+            let Ok(t) = std::fs::read_to_string(&f) else { continue };
+            let b = t.as_bytes();
+            let mut i = 0;
+            while i < b.len() {
+                if b[i] == b'[' {
+                    if let Some(end) = t[i..].find(']').map(|e| i + e) {
+                        let inner = &t[i + 1..end];
+                        if inner.len() < 40 && !inner.contains('[') {
+                            if let Some((v, n)) = inner.split_once(';') {
+                                if let (Some(v), Some(n)) = (num(v), num(n)) {
+                                    if v <= 255 && (1..=4096).contains(&n) {
+                                        set.insert(vec![v as u8; n as usize]);
+                                    }
+                                }
+                            }
+                        }
+                    }
+                }
+                i += 1;
+            }
+        }
+    }
+    set.into_iter().collect()
+}
